@@ -1556,3 +1556,87 @@ def _iter_try_fold(ctx, p, init, clos):
 def mirparse_split(s):
     from .mirparse import split_top
     return split_top(s)
+
+
+def unzb(x):
+    x = z3.simplify(x) if z3.is_expr(x) else x
+    if x is True or x is False:
+        return x
+    return True if z3.is_true(x) else (False if z3.is_false(x) else x)
+
+
+@model(r'^core::slice::<impl \[.*\]>::chunk_by::<.*>$')
+def _slice_chunk_by(ctx, p, clos):
+    """maximal runs of consecutive elements related by the predicate, as an iterator over sub-slices.  The sequence may be
+    sparse (elements present under guards): adjacency is between consecutive *present* elements.  Bounded: <= 8 entries."""
+    from .models import _entries_of_slice
+    ents = list(_entries_of_slice(ctx, p, False))
+    n = len(ents)
+    if n > 8:
+        raise Unsupported('chunk_by over more than 8 entries')
+    g = [zb(e[0]) for e in ents]
+    ptrs = [ctx.ex.alloc(ctx.st, e[1]) for e in ents]
+    adj, rel = {}, {}
+    for i in range(n):
+        for j in range(i + 1, n):
+            a = z3.And(g[i], g[j], *[z3.Not(g[k]) for k in range(i + 1, j)])
+            a = z3.simplify(a)
+            if z3.is_false(a):
+                continue
+            adj[(i, j)] = a
+            r = call_under(ctx, a, clos, [ptrs[i], ptrs[j]])
+            rel[(i, j)] = zb(r)
+    out = []
+    for i in range(n):
+        linked_from_before = [z3.And(adj[(q, i)], rel[(q, i)]) for q in range(i) if (q, i) in adj]
+        start = z3.And(g[i], z3.Not(z3.Or(*linked_from_before))) if linked_from_before else g[i]
+        inch = {i: z3.BoolVal(True)}
+        chunk = [(True, ents[i][1])]
+        for k in range(i + 1, n):
+            via = [z3.And(adj[(q, k)], rel[(q, k)], inch[q]) for q in range(i, k) if (q, k) in adj and q in inch]
+            inch[k] = z3.simplify(z3.Or(*via)) if via else z3.BoolVal(False)
+            if not z3.is_false(inch[k]):
+                chunk.append((unzb(inch[k]), ents[k][1]))
+        start = z3.simplify(start)
+        if z3.is_false(start):
+            continue
+        out.append((unzb(start), ctx.ex.alloc(ctx.st, Seq(tuple(chunk)))))
+    return IterV(tuple(out))
+
+
+@model(r'^<(u8|u16|u32|u64|u128|usize|i8|i16|i32|i64|i128|isize|bool|char) as std::cmp::PartialEq>::(eq|ne)$')
+def _prim_eq(ctx, a, b):
+    x, y = ctx.deref(a), ctx.deref(b)
+    m = re.match(r'^<(\w+) as', ctx.callee)
+    r = ctx.ex.binop('Eq', x, y, m.group(1))
+    return b_not(r) if ctx.callee.endswith('ne') else r
+
+
+_INTS = r'(u8|u16|u32|u64|u128|usize|i8|i16|i32|i64|i128|isize)'
+
+
+@model(r'^<' + _INTS + r' as std::ops::(Add|Sub|Mul|BitAnd|BitOr|BitXor|Shr|Shl)Assign<&' + _INTS + r'>>::\w+$')
+def _prim_ops_assign_ref(ctx, p, q):
+    """`a op= &b` on primitive integers (overflow of +,-,* panics as in the dev profile, through binop's checks where it has them)"""
+    m = re.match(r'^<(\w+) as std::ops::(\w+)Assign<&(\w+)>>', ctx.callee)
+    a, b = ctx.deref(p), ctx.deref(q)
+    op = m.group(2)
+    if op in ('Add', 'Sub', 'Mul'):
+        r = ctx.ex.checked_arith(ctx, op, a, b, m.group(1)) if hasattr(ctx.ex, 'checked_arith') else None
+        if r is None:
+            raise Unsupported('%sAssign<&%s> (overflow-checked compound assignment through a reference)' % (op, m.group(3)))
+    else:
+        r = ctx.ex.binop(op, a, b, m.group(1), m.group(3))
+    ctx.write(p, r)
+    return UNIT
+
+
+@model(r'^(core::str::<impl str>|std::string::String)::is_empty$')
+def _str_is_empty_generic(ctx, s):
+    """emptiness through the length model of whatever string abstraction is in use; abstract strings that only know their
+    emptiness keep their own model (registered earlier, tried later)"""
+    v = as_str(ctx, s)
+    if not (hasattr(v, 'len_model') or hasattr(v, 'ents') or (hasattr(v, 'chars') and isinstance(v.chars, list)) or isinstance(v, StrV)):
+        return X.NOT_HANDLED
+    n = _str_len(ctx, s)
+    return ctx.ex.binop('Eq', n, CI(0, 64), 'usize')
